@@ -441,7 +441,13 @@ class Daemon(object):
                     # batched method calls, loop over them all and collect all results
                     data = []
                     for method, vargs, kwargs in vargs:
-                        method = _get_attribute(obj, method)
+                        try:
+                            method = _get_attribute(obj, method)
+                        except AttributeError as xv:
+                            # an unknown, private or unexposed member fails at its own position, like a call that raises
+                            xv._pyroTraceback = errors.format_traceback(detailed=config.DETAILED_TRACEBACK)
+                            data.append(core._ExceptionWrapper(xv))
+                            break  # stop processing the rest of the batch
                         try:
                             result = method(*vargs, **kwargs)  # this is the actual method call to the Pyro object
                         except Exception as xv:
